@@ -160,7 +160,7 @@ def make_struct_members(xml_elem, dynamic_array=False):
                 yield model.StructMember(xml_elem_name, xml_elem_type, bound=sizer_name[1:], docstring=comment)
 
             elif size and "THIS_IS_VARIABLE_SIZE_ARRAY" in size:
-                sizer_name = "numOf" + xml_elem_name[0].upper() + xml_elem_name[1:]
+                sizer_name = "numOf" + xml_elem_name[:1].upper() + xml_elem_name[1:]
                 yield model.StructMember(xml_elem_name, xml_elem_type, bound=sizer_name, docstring=comment)
 
             elif "isVariableSize" in dimension.attrib:
@@ -210,7 +210,10 @@ class IsarParser(object):
         content = content.encode('utf-8')
 
         def collect():
-            root = ElementTree.fromstring(content)
+            try:
+                root = ElementTree.fromstring(content)
+            except ElementTree.ParseError as e:
+                raise model.ModelError("isar input is not well-formed XML: {}".format(e))
             for xml_elem in root.iterfind('.//*[@href]'):
                 yield make_include(xml_elem, process_file, self.warn)
 
